@@ -25,6 +25,7 @@ func main() {
 	callers := flag.Bool("callers", false, "print non-test callers of the function specs given as arguments")
 	briefN := flag.Int("brief", 0, "with -dump: omit logging/event calls and error returns, truncate lines to N chars")
 	warm := flag.Bool("warm", false, "load the workspace once (warms the build cache) and exit")
+	self := flag.Bool("selftest", false, "run the rule kinds against the checker's own fixtures and exit (with -dump: print fixture facts)")
 	flag.Parse()
 	if t := os.Getenv("VERIF_TIER"); t != "" && (t == "quick" || t == "thorough") {
 		*tier = t
@@ -56,6 +57,16 @@ func main() {
 		replayKey = doc.Obligation.Key
 	}
 
+	if *self {
+		fails := selfTest(*dump, flag.Args())
+		for _, f := range fails {
+			fmt.Println("SELFTEST-FAIL", f)
+		}
+		if len(fails) > 0 {
+			os.Exit(2)
+		}
+		return
+	}
 	P, err := load.Load()
 	if err != nil {
 		fmt.Printf("CHECK-BROKEN property=%s cannot load /repo: %v\n", *prop, err)
@@ -99,6 +110,13 @@ func main() {
 		}
 		return
 	}
+	// thorough tier: the rule kinds are first exercised on the checker's own good/bad fixtures
+	var selfFails []string
+	selfRan := false
+	if *tier == "thorough" && replayKey == "" {
+		selfFails = selfTest(false, nil)
+		selfRan = true
+	}
 	ids := strings.Split(*prop, ",")
 	if *prop == "all" {
 		ids = props.IDs()
@@ -125,6 +143,12 @@ func main() {
 			}()
 			p.Run(ctx)
 		}()
+		if selfRan {
+			res.Extra["selftest"] = "rule kinds exercised on fixtures/x/fx (good must hold, bad must report)"
+			for _, f := range selfFails {
+				res.Broken = append(res.Broken, "selftest: "+f)
+			}
+		}
 		if len(res.Obligations) < p.MinObl {
 			res.Broken = append(res.Broken, fmt.Sprintf("only %d obligations generated, floor is %d", len(res.Obligations), p.MinObl))
 		}
